@@ -51,6 +51,7 @@ def _make_scratch():
         os.makedirs(p, exist_ok=True)
         os.environ[var] = p
     os.environ["HOME"] = _SCRATCH
+    os.environ["HYPOTHESIS_STORAGE_DIRECTORY"] = os.path.join(_SCRATCH, "hypothesis")  # its character-table cache: not in the working directory
     pid = os.getpid()
     path = _SCRATCH
 
